@@ -146,6 +146,43 @@ theorem applyActs_hidden (H : Bytes → Bytes) : ∀ (acts : List Act) (q : List
       simp [actConsts] at this ⊢
       exact Or.inr (Or.inr this)
 
+/-! ### strings.Cut -/
+
+theorem cutAt_none (c : UInt8) : ∀ s, cutAt c s = none → c ∉ s
+  | [], _ => by simp
+  | b :: r, h => by
+    unfold cutAt at h
+    split at h
+    · cases h
+    · rename_i hb
+      cases hr : cutAt c r with
+      | none =>
+        have := cutAt_none c r hr
+        simp
+        exact ⟨fun e => hb e.symm, this⟩
+      | some xy => simp [hr] at h
+
+theorem cutAt_some (c : UInt8) : ∀ s x y, cutAt c s = some (x, y) → s = x ++ c :: y ∧ c ∉ x
+  | [], _, _, h => by simp [cutAt] at h
+  | b :: r, x, y, h => by
+    unfold cutAt at h
+    split at h
+    · rename_i hb
+      simp at h
+      rcases h with ⟨rfl, rfl⟩
+      simp [hb]
+    · rename_i hb
+      cases hr : cutAt c r with
+      | none => simp [hr] at h
+      | some xy =>
+        rcases xy with ⟨x', y'⟩
+        simp [hr] at h
+        rcases h with ⟨rfl, rfl⟩
+        have := cutAt_some c r x' y' hr
+        refine ⟨by rw [this.1]; simp, ?_⟩
+        simp
+        exact ⟨fun e => hb e.symm, this.2⟩
+
 /-! ### cookies -/
 
 theorem cookieAct_some (H : Bytes → Bytes) : ∀ (acts : List Act) (c c' : Cookie), cookieAct H acts c = some c' →
